@@ -1,5 +1,158 @@
-From Coq Require Import List ZArith.
-From GS Require Import Spec.Base Spec.PB.
-Theorem C05_placeholder : forall n p, count_models n p = N.of_nat (length (filter p (all_models n))).
-Proof. exact count_models_spec. Qed.
-Print Assumptions C05_placeholder.
+(* C05: model counting and enumeration.  Statements only. *)
+From Coq Require Import List ZArith Bool NArith Permutation.
+From GS Require Import Spec.Base Spec.PB Spec.Solver Model.Enum Proofs.Enum.
+Import ListNotations.
+Open Scope Z_scope.
+
+(* The blocking clause built from the decisions removes exactly the model found. *)
+Theorem block_decisions_exact :
+  forall solveD, solveD_ok solveD ->
+  forall n P m ds, solveD n P = Some (m, ds) ->
+  forall m', length m' = n ->
+    (sat_problem m' (P ++ [block ds]) = true <-> sat_problem m' P = true /\ m' <> m).
+Proof. exact Proofs.Enum.block_decisions_exact. Qed.
+Print Assumptions block_decisions_exact.
+
+(* Enumeration terminates within 2^n+1 iterations (the channel is closed) and
+   delivers every satisfying total assignment exactly once and nothing else. *)
+Theorem C05_enum :
+  forall solveD, solveD_ok solveD ->
+  forall n P, exists l, enumerate solveD n P = Some l /\
+    Permutation l (filter (fun m => sat_problem m P) (all_models n)).
+Proof. exact enumerate_perm. Qed.
+Print Assumptions C05_enum.
+
+Theorem C05_no_dup :
+  forall solveD, solveD_ok solveD ->
+  forall n P l, enumerate solveD n P = Some l -> NoDup l.
+Proof. exact enumerate_nodup. Qed.
+Print Assumptions C05_no_dup.
+
+(* The count is the number of satisfying total assignments, and the number of
+   models delivered by enumeration. *)
+Theorem C05_count :
+  forall solveD, solveD_ok solveD ->
+  forall n P,
+    model_count solveD n P =
+      Some (N.of_nat (length (filter (fun m => sat_problem m P) (all_models n)))) /\
+    model_count solveD n P =
+      option_map (fun l => N.of_nat (length l)) (enumerate solveD n P).
+Proof. exact model_count_spec. Qed.
+Print Assumptions C05_count.
+
+(* ... which is what the exhaustive oracle of Spec/Base.v computes. *)
+Theorem C05_count_oracle :
+  forall solveD, solveD_ok solveD ->
+  forall n P, model_count solveD n P = Some (count_models n (fun m => sat_problem m P)).
+Proof. exact model_count_dec. Qed.
+Print Assumptions C05_count_oracle.
+
+Theorem C05_trivial :
+  forall solveD, solveD_ok solveD ->
+  forall n, model_count solveD n [] = Some (N.pow 2 (N.of_nat n)).
+Proof. exact model_count_trivial. Qed.
+Print Assumptions C05_trivial.
+
+Theorem C05_unsat :
+  forall solveD, solveD_ok solveD ->
+  forall n P, (forall m, length m = n -> sat_problem m P = false) ->
+    model_count solveD n P = Some 0%N /\ enumerate solveD n P = Some [].
+Proof. exact model_count_unsat. Qed.
+Print Assumptions C05_unsat.
+
+(* Same statements for a search that may leave variables unbound (a binding
+   array with k unbound variables stands for 2^k models: addCurrentModels /
+   countCurrentModels). *)
+Theorem C05_enum_pm :
+  forall solveD, solveD_pm_ok solveD ->
+  forall n P, exists l, enumerate_pm solveD n P = Some l /\ Permutation l (sols n P).
+Proof. exact enumerate_pm_perm. Qed.
+Print Assumptions C05_enum_pm.
+
+Theorem C05_no_dup_pm :
+  forall solveD, solveD_pm_ok solveD ->
+  forall n P l, enumerate_pm solveD n P = Some l -> NoDup l.
+Proof. exact enumerate_pm_nodup. Qed.
+Print Assumptions C05_no_dup_pm.
+
+Theorem C05_count_pm :
+  forall solveD, solveD_pm_ok solveD ->
+  forall n P,
+    count_pm solveD n P = Some (N.of_nat (length (sols n P))) /\
+    count_pm solveD n P = option_map (fun l => N.of_nat (length l)) (enumerate_pm solveD n P).
+Proof. exact count_pm_spec. Qed.
+Print Assumptions C05_count_pm.
+
+Theorem C05_trivial_pm :
+  forall solveD, solveD_pm_ok solveD ->
+  forall n, count_pm solveD n [] = Some (N.pow 2 (N.of_nat n)).
+Proof. exact count_pm_trivial. Qed.
+Print Assumptions C05_trivial_pm.
+
+Theorem C05_unsat_pm :
+  forall solveD, solveD_pm_ok solveD ->
+  forall n P, (forall m, length m = n -> sat_problem m P = false) ->
+    count_pm solveD n P = Some 0%N /\ enumerate_pm solveD n P = Some [].
+Proof. exact count_pm_unsat. Qed.
+Print Assumptions C05_unsat_pm.
+
+(* The loop with any fuel: a finished run is exact, and |models|+1 iterations
+   are enough (2^n + 1 in particular). *)
+Theorem C05_loop_sound :
+  forall solveD, solveD_pm_ok solveD ->
+  forall fuel n P l, enum_loop solveD fuel n P = Some l -> Permutation l (sols n P).
+Proof. exact enum_loop_sound. Qed.
+Print Assumptions C05_loop_sound.
+
+Theorem C05_loop_fuel :
+  forall solveD, solveD_pm_ok solveD ->
+  forall fuel n P, (length (sols n P) < fuel)%nat ->
+    exists l, enum_loop solveD fuel n P = Some l.
+Proof. exact enum_loop_fuel. Qed.
+Print Assumptions C05_loop_fuel.
+
+Theorem C05_fuel_enough : forall n P, (length (sols n P) < enum_fuel n)%nat.
+Proof. exact enum_fuel_enough. Qed.
+Print Assumptions C05_fuel_enough.
+
+(* The hypotheses are satisfiable: three executable searches meet the contract. *)
+Example C05_hyp_all : solveD_ok solveD_all.
+Proof. exact solveD_all_ok. Qed.
+Print Assumptions C05_hyp_all.
+
+Example C05_hyp_min : solveD_ok solveD_min.
+Proof. exact solveD_min_ok. Qed.
+Print Assumptions C05_hyp_min.
+
+Example C05_hyp_ref : solveD_pm_ok solveD_ref.
+Proof. exact solveD_ref_ok. Qed.
+Print Assumptions C05_hyp_ref.
+
+(* x1 \/ x2 over three variables: six models; two decisions or fewer per model. *)
+Example C05_ex_enum :
+  enumerate solveD_min 3 [clause_pbc [1; 2]] =
+  Some [[false; true; false]; [false; true; true]; [true; false; false];
+        [true; false; true]; [true; true; false]; [true; true; true]].
+Proof. vm_compute. reflexivity. Qed.
+
+Example C05_ex_decisions :
+  solveD_min 3 [clause_pbc [1; 2]; PBC [(2, 1); (1, -2); (1, 3)] 2] =
+  Some ([true; false; false], [-2; -3]).
+Proof. vm_compute. reflexivity. Qed.
+
+Example C05_ex_count :
+  count_ref 3 [clause_pbc [1; 2]; PBC [(2, 1); (1, -2); (1, 3)] 2] = Some 4%N.
+Proof. vm_compute. reflexivity. Qed.
+
+(* no constraint: one binding array with three unbound variables, 2^3 models *)
+Example C05_ex_trivial :
+  solveD_ref 3 [] = Some ([None; None; None], []) /\ count_ref 3 [] = Some 8%N /\
+  enumerate_ref 3 [] =
+  Some [[false; false; false]; [true; false; false]; [false; true; false]; [true; true; false];
+        [false; false; true]; [true; false; true]; [false; true; true]; [true; true; true]].
+Proof. vm_compute. auto. Qed.
+
+Example C05_ex_unsat :
+  count_ref 2 [clause_pbc [1]; clause_pbc [-1]] = Some 0%N /\
+  enumerate_ref 2 [clause_pbc [1]; clause_pbc [-1]] = Some [].
+Proof. vm_compute. auto. Qed.
